@@ -196,6 +196,11 @@ def check(ctx):
             if side != []: mleft = True
         if [o[0] for o in out] != mo or left != mleft:
             ctx.disagree("schedule", dict(threads=tf, schedule=s), [[o[0] for o in out], left], [mo, mleft])
+            # a call that fails under a schedule for which the side-file protocol as modelled lets every call succeed is not the recorded
+            # same-file finding (that one is exactly the set of schedules the model predicts): it is a failing input of its own
+            for i, o in enumerate(out):
+                if o[0] != "solo" and mo[i] == "solo":
+                    ctx.fail("C20/interference", dict(kind="schedule", threads=tf, schedule=s, caller=None), "call %d on %s: %r under a schedule that the side-file protocol survives" % (i, tf[i], o))
     pick = sorted(rng.sample(range(len(reqs)), min(25, len(reqs))))
     ctx.crosscheck = vlib.coq_crosscheck([reqs[i] for i in pick], [ans[i] for i in pick], "c20")
     ctx.exhaustive = not ctx.quick()
